@@ -74,12 +74,15 @@ var objTypeSrc = map[string]string{
 	"My::Wrap": `Object[name => 'My::Wrap', attributes => {v => Any, w => {type => Any, value => undef}}]`,
 	// an Object type with a type parameter: My::Par[3] is a type value of its own kind (an extension of My::Par)
 	"My::Par": `Object[name => 'My::Par', type_parameters => {n => Integer}, attributes => {x => Integer}]`,
+	// an attribute whose declared default is a value with a COARSE Equals (Timespan.Equals compares whole seconds,
+	// types/timespantype.go:424): open finding object-default-coarse-equals
+	"My::Dur": `Object[name => 'My::Dur', attributes => {n => Integer, span => {type => Timespan, value => Timespan('0-00:00:01')}}]`,
 }
 
 // the object types that random instances and parameters are drawn from (My::Par is met through the type
 // expressions My::Par[n] only)
 var objTypeOrder = []string{"My::Pt", "My::Wrap"}
-var objTypeAll = []string{"My::Pt", "My::Wrap", "My::Par"}
+var objTypeAll = []string{"My::Pt", "My::Wrap", "My::Par", "My::Dur"}
 var aliasSrc = map[string]string{
 	"My::Ints": `type My::Ints = Array[Integer]`,
 	"My::Tree": `type My::Tree = Variant[Integer,Array[My::Tree]]`,
@@ -311,6 +314,21 @@ func (s *Spec) structOverUserType() bool {
 	}
 	for _, e := range s.E {
 		if e.structOverUserType() {
+			return true
+		}
+	}
+	return false
+}
+
+// coarseDefault: does the spec hold an instance of My::Dur whose span is not the declared default (1 s) but has
+// the same whole seconds?  attribute.Default(span) = default.Equals(span) is then true although the values differ.
+// Input class of the open finding object-default-coarse-equals.
+func (s *Spec) coarseDefault() bool {
+	if s.K == "obj" && s.S == "My::Dur" && len(s.E) >= 2 && s.E[1].K == "timespan" && s.E[1].I > 1000000000 && s.E[1].I < 2000000000 {
+		return true
+	}
+	for _, e := range s.E {
+		if e.coarseDefault() {
 			return true
 		}
 	}
